@@ -2,6 +2,7 @@
 import vlib, memfs_gen, scan_rust
 
 WRAPPED = {}
+DIRECT2 = {}
 DEAD = {}
 INFO = {}
 
@@ -20,10 +21,15 @@ def prepare(hists):
     """run the same histories through the Vfs enum (`newvfs`), harness only"""
     W = [['newvfs' + h[0][3:]] + h[1:] for h in hists]
     impl, _ = vlib.run_sessions(W, 'C13_wrapped')
+    # the direct run a second time: where two direct runs differ the implementation itself is
+    # order-dependent (HashMap/HashSet iteration order, seeded per map) and transparency cannot be compared
+    impl2, _ = vlib.run_sessions(hists, 'C13_direct2')
     WRAPPED.clear()
+    DIRECT2.clear()
     DEAD.clear()
     for hi, res in enumerate(impl):
         WRAPPED[id(hists[hi])] = res
+        DIRECT2[id(hists[hi])] = impl2[hi]
     prepare.hists = hists
 
 
@@ -36,6 +42,10 @@ def judge(req, impl, f, prev, hi, i):
     w = res[i]
     if w == impl:
         return None
+    d2 = DIRECT2.get(id(prepare.hists[hi]))
+    if d2 is not None and i < len(d2) and d2[i] != impl and req.split(' ')[0] in vlib.UNORDERED_OPS:
+        DEAD[hi] = i                                  # two direct runs differ: order-dependent effect of a multi-entry call
+        return None
     if vlib.cmp_line(req, impl, w) != 'mismatch':     # order-dependent / hang tolerance, same rules as model comparison
         DEAD[hi] = i                                  # the two runs may legitimately differ from here on
         return None
@@ -45,7 +55,7 @@ def judge(req, impl, f, prev, hi, i):
 SPEC = dict(
     prop='C13', lean_mod='Rivia.Props.C13', gen=gen, judge=judge, judge_ctx=True, pregen=pregen, prepare=prepare,
     rule='TRANSLATOR: the dispatch table is regenerated from src/sys/fs/{vfs,entry}.rs and stdfs/{vfs,entry}.rs, memfs/entry.rs on every run and the transparency theorems are re-proved by decide. '
-         'SEARCH/SUPPORT: every history is executed twice, directly on Memfs and through Vfs::Memfs (upcast), results and state dumps must be identical; distinct = distinct (pre-state, call) pairs',
+         'SEARCH/SUPPORT: every history is executed directly on Memfs (twice) and through Vfs::Memfs (upcast), results and state dumps must be identical wherever the two direct runs are (multi-entry calls whose effect depends on the hash iteration order are skipped); distinct = distinct (pre-state, call) pairs',
     assumptions=['Rust `match` semantics', 'the token scanner (tools/scan_rust.py) extracts the impl blocks faithfully (checked: every body is classified, counts recorded in the evidence)',
                  'Stdfs side and VfsEntry accessors are covered by the static table only (no dynamic run)'],
     trusted_base=['tools/scan_rust.py (Rust token scanner + table generator, ~300 lines)', 'Rust harness + Python driver'],
